@@ -97,7 +97,7 @@ pub fn split_formatter(_key: &str, value: &str) -> String {
     items.join(",\n")
 }
 
-pub struct Settings { pub ind: u32, pub fnl: bool, pub iel: bool, pub one: Option<usize>, pub sp: bool, pub sf: bool, pub fmt: String }
+pub struct Settings { pub wp: bool, pub ind: u32, pub fnl: bool, pub iel: bool, pub one: Option<usize>, pub sp: bool, pub sf: bool, pub fmt: String }
 
 /// sort key of a paragraph that depends only on its field names and values, not on their order or layout
 fn first_value(p: &Paragraph) -> String {
@@ -118,7 +118,8 @@ pub fn apply(d: &Deb822, s: &Settings) -> Result<Deb822, String> {
     let wrap_para = |p: &Paragraph| p.wrap_and_sort(indentation, s.iel, s.one, se, fmt);
     let sort_paras = |a: &Paragraph, b: &Paragraph| first_value(a).cmp(&first_value(b));
     let spf: Option<&dyn Fn(&Paragraph, &Paragraph) -> std::cmp::Ordering> = if s.sp { Some(&sort_paras) } else { None };
-    guarded("Deb822::wrap_and_sort", || d.wrap_and_sort(spf, Some(&wrap_para)))
+    let wpf: Option<&dyn Fn(&Paragraph) -> Paragraph> = if s.wp { Some(&wrap_para) } else { None };
+    guarded("Deb822::wrap_and_sort", || d.wrap_and_sort(spf, wpf))
 }
 
 fn ranks(keys: &[String]) -> Vec<i64> {
@@ -147,7 +148,7 @@ pub fn observe(o: &mut Outcome, t: &mut WTab, text: &str, s: &Settings, feats: &
     let (rr, rapi) = match Deb822::from_str(&out_text) { Ok(r) => (true, api_of(t, &r)), Err(_) => (false, vec![]) };
     let same2 = match apply(&out, s) { Ok(x2) => x2.to_string() == out_text, Err(m) => { o.v("C07", "idempotent", "Deb822::wrap_and_sort", "panic", feats, &out_text, m); return None; } };
     Some(json!({"op": "wrap", "pre": {"lines": pre_lines}, "prank": prank, "fmtv": fmtv, "same2": same2, "extra": true,
-        "set": {"ind": s.ind, "fnl": s.fnl, "sp": s.sp, "sf": s.sf, "fmt": s.fmt, "iel": s.iel, "one": s.one.map(|x| x as i64).unwrap_or(0)},
+        "set": {"wp": s.wp, "ind": s.ind, "fnl": s.fnl, "sp": s.sp, "sf": s.sf, "fmt": s.fmt, "iel": s.iel, "one": s.one.map(|x| x as i64).unwrap_or(0)},
         "post": {"lines": post_lines, "term": term, "api": api, "rr": rr, "rapi": rapi},
         "features": feats, "text": format!("{:?} -> {:?}", text, out_text)}))
 }
@@ -157,7 +158,7 @@ pub fn run(case: &Value, _seed: u64) -> Outcome {
     o.key = case.to_string();
     o.nontrivial = case["doc"]["lines"].as_array().map(|a| !a.is_empty()).unwrap_or(false);
     let st = &case["set"];
-    let s = Settings { ind: st["ind"].as_u64().unwrap_or(1) as u32, fnl: st["fnl"].as_bool().unwrap_or(false), iel: st["iel"].as_bool().unwrap_or(false),
+    let s = Settings { wp: st["wp"].as_bool().unwrap_or(true), ind: st["ind"].as_u64().unwrap_or(1) as u32, fnl: st["fnl"].as_bool().unwrap_or(false), iel: st["iel"].as_bool().unwrap_or(false),
         one: match st["one"].as_u64().unwrap_or(0) { 0 => None, n => Some(n as usize) }, sp: st["sp"].as_bool().unwrap_or(false), sf: st["sf"].as_bool().unwrap_or(false),
         fmt: st["fmt"].as_str().unwrap_or("none").to_string() };
     let mut feats = vec![format!("fmt:{}", s.fmt), format!("doc:{}", case["d"])];
@@ -165,6 +166,7 @@ pub fn run(case: &Value, _seed: u64) -> Outcome {
     if s.sf { feats.push("sort_fields".into()); }
     if s.iel { feats.push("immediate_empty_line".into()); }
     if s.fnl { feats.push("field_name_length".into()); }
+    if !s.wp { feats.push("no_paragraph_rebuilder".into()); }
     let mut events = vec![];
     for map in 0..super::nmaps().min(3) {
         let mut t = WTab::for_map(map);
@@ -223,7 +225,7 @@ pub fn record(args: &[String]) {
         let text = bases[rng.gen_range(0..bases.len())].clone();
         let keys: Vec<String> = Deb822::from_str(&text).unwrap().paragraphs().flat_map(|p| p.keys().collect::<Vec<_>>()).collect();
         let mut t = WTab::for_keys(keys);
-        let s = Settings { ind: [1, 2, 4, 8][rng.gen_range(0..4)], fnl: rng.gen_bool(0.25), iel: rng.gen_bool(0.5), one: [None, Some(20), Some(79)][rng.gen_range(0..3)],
+        let s = Settings { wp: true, ind: [1, 2, 4, 8][rng.gen_range(0..4)], fnl: rng.gen_bool(0.25), iel: rng.gen_bool(0.5), one: [None, Some(20), Some(79)][rng.gen_range(0..3)],
             sp: rng.gen_bool(0.5), sf: rng.gen_bool(0.5), fmt: ["none", "identity", "split"][rng.gen_range(0..3)].to_string() };
         let feats = vec![format!("fmt:{}", s.fmt), "doc:repository".to_string()];
         if let Some(ev) = observe(&mut o, &mut t, &text, &s, &feats) { distinct.insert(crate::conc::hash64(&ev["text"].to_string())); out.push_str(&ev.to_string()); out.push('\n'); events += 1; }
@@ -273,7 +275,7 @@ fn control_event(o: &mut Outcome, text: &str, ind: u32, fnl: bool, iel: bool, on
     let (rr, rapi, api) = match Deb822::from_str(&out_text) { Ok(r) => { let a = api_of(&mut t, &r); (true, a.clone(), a) } Err(_) => (false, vec![], vec![]) };
     let same2 = match run(&out_text) { Ok(x2) => x2 == out_text, Err(m) => { o.v("C07", "idempotent", "Control::wrap_and_sort", "panic", feats, &out_text, m); return None; } };
     Some(json!({"op": "wrap", "pre": {"lines": pre_lines}, "prank": prank, "fmtv": fmtv, "same2": same2, "extra": extra,
-        "set": {"ind": ind, "fnl": fnl, "sp": true, "sf": false, "fmt": "control", "iel": iel, "one": one.map(|x| x as i64).unwrap_or(0)},
+        "set": {"wp": true, "ind": ind, "fnl": fnl, "sp": true, "sf": false, "fmt": "control", "iel": iel, "one": one.map(|x| x as i64).unwrap_or(0)},
         "post": {"lines": post_lines, "term": term, "api": api, "rr": rr, "rapi": rapi},
         "features": feats, "text": format!("{:?} -> {:?}", text, out_text)}))
 }
